@@ -6,7 +6,8 @@ import ast
 import re
 
 from ..cfg import CFG
-from ..dtable import run_paths
+from ..dtable import UNKNOWN, run_paths
+from ..dtable import _val as dval
 from ..normal import inline_temps
 from ..pattern import find, guards_of, pmatch
 from ..core import (AnalysisError, body_nodes, call_name, depends_on, dotted, is_self_attr,
@@ -272,6 +273,117 @@ def check_hcflag_model(prog, rep):
                           'half', f.lineno)
 
 
+def check_perm_undo(prog, rep):
+    """exact_diag.py exports operators / wave functions in the user's basis order: `site.perm`
+    (position in the charge-sorted basis -> original index) is only ever used there through
+    inverse_permutation (the three exporters are siblings and must agree)."""
+    m = prog.module(ED)
+    n = 0
+    for q, f in m.functions.items():
+        for x in body_nodes(f):
+            if isinstance(x, ast.Attribute) and x.attr == 'perm' and isinstance(x.ctx, ast.Load):
+                n += 1
+                par = parent(x)
+                while isinstance(par, ast.Call) and call_name(par) in ('asarray', 'array', 'list'):
+                    par = parent(par)
+                inv = isinstance(par, ast.Call) and call_name(par) == 'inverse_permutation'
+                if not inv and isinstance(par, ast.Call) and call_name(par) == 'argsort':
+                    inv = True
+                rep.instance('PERM-undo', {'function': q, 'use': unparse(parent(x))[:60],
+                                           'inverted': inv})
+                if not inv:
+                    rep.violation('PERM-undo', m, q, 'perm-not-inverted',
+                                  '`%s`: undoing the charge sorting needs '
+                                  'inverse_permutation(site.perm); the permutation itself sorts a '
+                                  'second time (only wrong for sites whose permutation is not an '
+                                  'involution, e.g. BosonSite with parity)' %
+                                  unparse(parent(x))[:70], x.lineno)
+    if n < 3:
+        raise AnalysisError('PERM-undo: uses of site.perm in exact_diag.py not found')
+
+
+def check_onsite_weights(prog, rep):
+    """When on-site terms are folded into nearest-neighbour bond operators every site's term must
+    enter with total weight 1: 1/2 on each of its two bonds, except the end sites of a FINITE
+    chain, which belong to one bond only (weight 1). Decided as a table over (finite, position) on
+    the weight expressions of both implementations."""
+    m = prog.module(MODEL)
+    f = m.func('MPOModel.calc_H_bond_from_MPO')
+    ws = {}
+    for st in ast.walk(f):
+        if isinstance(st, ast.Assign) and len(st.targets) == 1 and isinstance(
+                st.targets[0], ast.Name) and isinstance(st.value, ast.IfExp):
+            consts = {c.value for c in ast.walk(st.value) if isinstance(c, ast.Constant) and
+                      isinstance(c.value, float)}
+            if consts == {1.0, 0.5}:
+                t = unparse(st.value.test)
+                side = 'i' if re.search(r'\bi == 0\b', t) else ('j' if re.search(
+                    r'\bj == L - 1\b', t) else None)
+                if side:
+                    ws[side] = st.value
+    rep.instance('WEIGHT-onsite', {'function': 'MPOModel.calc_H_bond_from_MPO',
+                                   'weights': {k: unparse(v) for k, v in ws.items()}})
+    if set(ws) != {'i', 'j'}:
+        raise AnalysisError('calc_H_bond_from_MPO: the weights of the on-site terms were not found')
+
+    def w(side, finite, at_end):
+        atoms = {'finite': finite, 'i == 0': at_end, 'j == L - 1': at_end}
+        v = dval(ws[side], atoms, {})
+        return None if v is UNKNOWN else v
+
+    cases = []
+    for finite in (True, False):
+        # first site: left site of bond 1; additionally right site of the wrap-around bond 0
+        first = [w('i', finite, True)] + ([] if finite else [w('j', finite, False)])
+        last = [w('j', finite, True)] + ([] if finite else [w('i', finite, False)])
+        mid = [w('i', finite, False), w('j', finite, False)]
+        cases += [(finite, 'first', first), (finite, 'last', last), (finite, 'inner', mid)]
+    for finite, pos, parts in cases:
+        rep.instance('WEIGHT-onsite', {'finite': finite, 'site': pos, 'weights': parts})
+        if None in parts:
+            continue
+        if abs(sum(parts) - 1.0) > 1e-12:
+            rep.violation('WEIGHT-onsite', m, 'MPOModel.calc_H_bond_from_MPO',
+                          'weight:%s:%s' % ('finite' if finite else 'infinite', pos),
+                          'the on-site term of the %s site of %s chain enters the bond operators '
+                          'with total weight %s (parts %s) instead of 1: the sum of the bond '
+                          'operators is no longer the Hamiltonian' %
+                          (pos, 'a finite' if finite else 'an infinite', sum(parts), parts),
+                          f.lineno)
+    # sibling: OnsiteTerms.add_to_nn_bond_Arrays
+    t = prog.module(TERMS)
+    g = t.func('OnsiteTerms.add_to_nn_bond_Arrays')
+    body = None
+    for lp in ast.walk(g):
+        if isinstance(lp, ast.For) and any(isinstance(x, ast.If) and 'finite' in unparse(x.test)
+                                           for x in lp.body):
+            body = [x for x in lp.body if isinstance(x, ast.If) and 'finite' in unparse(x.test)]
+    if body is None:
+        raise AnalysisError('add_to_nn_bond_Arrays: distribution table not found')
+    jv = 'j'
+    for finite in (True, False):
+        for pos in ('first', 'last', 'inner'):
+            atoms = {'finite': finite, '%s == 0' % jv: pos == 'first',
+                     '%s == N_sites - 1' % jv: pos == 'last', '%s == self.L - 1' % jv: pos == 'last'}
+            got = set()
+            for p_ in run_paths(body, atoms, {'distribute': (0.5, 0.5)}):
+                dl, dr = p_.env.get('dist_L'), p_.env.get('dist_R')
+                if isinstance(dl, ast.AST) or isinstance(dr, ast.AST):
+                    dl, dr = dval(dl, atoms, p_.env) if isinstance(dl, ast.AST) else dl, \
+                        dval(dr, atoms, p_.env) if isinstance(dr, ast.AST) else dr
+                got.add((dl, dr))
+            want = (0.0, 1.0) if (finite and pos == 'first') else (
+                (1.0, 0.0) if (finite and pos == 'last') else (0.5, 0.5))
+            rep.instance('WEIGHT-onsite', {'function': 'add_to_nn_bond_Arrays', 'finite': finite,
+                                           'site': pos, 'distribution': sorted(map(str, got))})
+            if got != {want}:
+                rep.violation('WEIGHT-onsite', t, 'OnsiteTerms.add_to_nn_bond_Arrays',
+                              'dist:%s:%s' % (finite, pos),
+                              'on-site term of the %s site (%s): (left bond, right bond) weights '
+                              '%s, expected %s' % (pos, 'finite' if finite else 'infinite',
+                                                   sorted(map(str, got)), want), g.lineno)
+
+
 def check_term_classes(prog, rep):
     m = prog.module(TERMS)
     rep.unit(m)
@@ -409,6 +521,8 @@ def run(prog, rep, tier):
     check_hcflag_model(prog, rep)
     check_term_classes(prog, rep)
     check_jw_in_model(prog, rep)
+    check_onsite_weights(prog, rep)
+    check_perm_undo(prog, rep)
     rep.floor('PLUSHC-guard', 9)
     rep.floor('PLUSHC-hc-block', 9)
     rep.floor('TERMS-interface', 15)
